@@ -205,7 +205,7 @@ pub fn generate(tier: &str, rng: &mut Rng) -> Vec<String> {
     let thorough = tier == "thorough";
     let mut v = vec![];
     let rs = |rng: &mut Rng| -> String { let n = rng.below(12) as usize; let s: String = (0..n).map(|_| crate::props::disc::rand_char(rng)).collect(); hex(s.as_bytes()) };
-    for _ in 0..(if thorough { 30_000 } else { 900 }) {
+    for _ in 0..(if thorough { 100_000 } else { 900 }) {
         let slot_for = |rng: &mut Rng, approx: usize| -> usize { match rng.below(4) { 0 => approx, 1 => approx.saturating_sub(1 + rng.below(4) as usize), _ => approx + rng.below(20) as usize } };
         match rng.below(3) {
             0 => { let s = rs(rng); let vb = rng.below(10) as usize; let o = if rng.chance(1, 2) { "~".to_string() } else { (rng.next() as u32).to_string() }; let approx = 1 + 8 + 4 + (s.len() / 2).max(if s == "-" { 0 } else { 0 }) + 4 + vb + 1 + if o == "~" { 0 } else { 4 }; v.push(format!("bpack S1 {} {} {} {} {} {}", rng.byte(), rng.next(), s, hex(&rng.bytes(vb)), o, slot_for(rng, approx))); }
@@ -213,7 +213,7 @@ pub fn generate(tier: &str, rng: &mut Rng) -> Vec<String> {
             _ => { let s = rs(rng); v.push(format!("bpack G1 {} {} {}", s, rng.next() as u32, rng.below(30))); }
         }
     }
-    for case in 0..(if thorough { 3_000 } else { 150 }) {
+    for case in 0..(if thorough { 10_000 } else { 150 }) {
         let n = match rng.below(4) { 0 => rng.range(0, 40) as usize, _ => rng.range(40, 200) as usize };
         v.push(format!("B {case} acct {n}"));
         let mut sh: Vec<(usize, usize)> = vec![];
